@@ -136,7 +136,13 @@ func c28Plan(rc *RC, n int) (*failPlan, int) {
 func manyPoints(n int) []*fspec {
 	out := make([]*fspec, 0, n)
 	for i := 0; i < n; i++ {
-		out = append(out, &fspec{ID: pointID(1000 + i), Lat: int32(515400000 + (i/20)*3000), Lng: int32(-1200000 + (i%20)*3000), Tags: []tagKV{{"name", fmt.Sprintf("p%d", i)}}})
+		id := pointID(1000 + i)
+		if i%3 == 2 {
+			// a second namespace: the compact world keeps one block of
+			// features per (type, namespace) and enumerates them in turn
+			id.Namespace = nsB
+		}
+		out = append(out, &fspec{ID: id, Lat: int32(515400000 + (i/20)*3000), Lng: int32(-1200000 + (i%20)*3000), Tags: []tagKV{{"name", fmt.Sprintf("p%d", i)}}})
 	}
 	return out
 }
